@@ -8,6 +8,8 @@ use serde_json::{json, Value};
 use std::collections::{BTreeMap, BTreeSet};
 use std::io::Write;
 
+pub const CLAIMED: [&str; 4] = ["C01", "C09", "C10", "C19"];
+
 pub fn verif_dir() -> String {
     std::env::var("VERIF_DIR").unwrap_or_else(|_| "/verif".to_string())
 }
@@ -465,4 +467,96 @@ pub fn one(prop: &str, seed: u64, idx: u64) -> i32 {
 #[allow(dead_code)]
 pub fn violations_brief(v: &[Violation]) -> String {
     v.iter().map(|x| x.oracle.clone()).collect::<Vec<_>>().join(",")
+}
+
+/// start-up self-test: every std / nix operation the writer uses must reach the simulated kernel
+pub fn selftest() -> i32 {
+    use crate::scenario::CallKind as K;
+    let mut r = crate::rng::Rng::new(7);
+    let b = crate::gen::build_world(&mut r, &crate::gen::WorldCfg::default());
+    let opts = crate::scenario::Opts { blamed: crate::gen::PID, ..Default::default() };
+    let sc = crate::gen::simple_dump_scenario("selftest", 7, "selftest", b, opts);
+    let a = crate::run::run(&sc, &crate::run::RunOpts::default());
+    let b2 = crate::run::run(&sc, &crate::run::RunOpts::default());
+    let Some(d) = a.dumps.first() else {
+        eprintln!("HARNESS-ERROR: selftest produced no dump");
+        return 2;
+    };
+    if !d.result.is_ok() {
+        eprintln!("HARNESS-ERROR: selftest dump failed: {:?}", d.result);
+        return 2;
+    }
+    for k in [K::Open, K::Read, K::Close, K::Statx, K::Stat, K::Readlink, K::Opendir, K::Readdir, K::Closedir, K::Mmap, K::PtraceAttach, K::PtraceDetach, K::PtraceGetregset, K::PtracePeekuser, K::Waitpid, K::Kill, K::Vmreadv, K::ClockGettime, K::Uname, K::DestWrite, K::DestSeek] {
+        if a.kernel.gt.counts[k as usize] == 0 {
+            eprintln!("HARNESS-ERROR: the simulated kernel never saw a {:?} call: an interposed symbol is being bypassed on this toolchain", k);
+            return 2;
+        }
+    }
+    if a.kernel.trace_hash != b2.kernel.trace_hash {
+        eprintln!("HARNESS-ERROR: two executions of one scenario differ");
+        return 2;
+    }
+    let img = d.result.image().unwrap();
+    let dec = crate::decode::decode(img);
+    if !dec.problems.is_empty() || dec.threads.as_ref().map(|t| t.len()) != Some(3) || dec.modules.as_ref().map(|m| m.len()).unwrap_or(0) < 3 {
+        eprintln!("HARNESS-ERROR: selftest image does not decode as expected: {:?}", dec.problems);
+        return 2;
+    }
+    println!("selftest ok: {} simulated calls, image {} bytes, {} modules", a.kernel.seq, img.len(), dec.modules.map(|m| m.len()).unwrap_or(0));
+    0
+}
+
+/// determinism lane: same seeds, different processes and worker counts, compare trace hashes
+pub fn determinism(props: &[String], n: u64) -> i32 {
+    let exe = std::env::current_exe().unwrap();
+    let seed = verif_seed();
+    let tmp = std::env::temp_dir().join(format!("mdsim-det-{}", std::process::id()));
+    let _ = std::fs::create_dir_all(&tmp);
+    let mut total = 0u64;
+    for prop in props {
+        let mut maps: Vec<BTreeMap<u64, String>> = Vec::new();
+        for (round, nw) in [(0u32, 16u64), (1, 3)] {
+            let mut kids = Vec::new();
+            for w in 0..nw {
+                let outp = tmp.join(format!("{}-{}-{}.json", prop, round, w));
+                let c = std::process::Command::new(&exe)
+                    .args(["worker", prop, &seed.to_string(), &w.to_string(), &nw.to_string(), &n.to_string(), outp.to_str().unwrap(), "600", "1"])
+                    .spawn()
+                    .expect("spawn");
+                kids.push((c, outp));
+            }
+            let mut m = BTreeMap::new();
+            for (mut c, outp) in kids {
+                let _ = c.wait();
+                let s = std::fs::read_to_string(&outp).unwrap_or_default();
+                let v: Value = serde_json::from_str(&s).unwrap_or(Value::Null);
+                for x in v["trace_hashes"].as_array().cloned().unwrap_or_default() {
+                    m.insert(x[0].as_u64().unwrap_or(0), x[1].as_str().unwrap_or("").to_string());
+                }
+            }
+            maps.push(m);
+        }
+        let mut mism = 0;
+        for (i, h) in &maps[0] {
+            if maps[1].get(i) != Some(h) {
+                mism += 1;
+                if mism <= 5 {
+                    eprintln!("determinism mismatch: {} index {}: {} vs {:?}", prop, i, h, maps[1].get(i));
+                }
+            }
+        }
+        println!("determinism {}: {} pairs, {} mismatches", prop, maps[0].len(), mism);
+        total += mism;
+        if maps[0].len() as u64 != n || maps[1].len() as u64 != n {
+            eprintln!("HARNESS-ERROR: determinism lane lost results ({} / {} of {})", maps[0].len(), maps[1].len(), n);
+            return 2;
+        }
+    }
+    let _ = std::fs::remove_dir_all(&tmp);
+    if total > 0 {
+        eprintln!("HARNESS-ERROR: {} determinism mismatches", total);
+        2
+    } else {
+        0
+    }
 }
